@@ -145,7 +145,10 @@ class Ctx:
 
     # --------------------------------------------------------------- driver
     def build_driver(self, race=False):
-        """Build the Go driver from /repo's current working tree with -tags verif."""
+        """Build the Go driver from /repo's current working tree with -tags verif.
+        Only the shared files (main.go, util.go, corpus*.go, common*.go) and the files of
+        this property (cxx*.go, plus ctx.extra_prefixes) are compiled, so a half-written
+        file of another property can never break this check."""
         out = os.path.join(self.scratch, "driver-race" if race else "driver")
         if os.path.exists(out):
             return out
@@ -158,6 +161,14 @@ class Ctx:
         hdir = os.path.join(self.scratch, "harness")
         if not os.path.exists(hdir):
             shutil.copytree(HARNESS, hdir)
+            keep = [self.prop.lower()] + list(getattr(self, "extra_prefixes", []))
+            ddir = os.path.join(hdir, "cmd", "driver")
+            for f in os.listdir(ddir):
+                if not f.endswith(".go"):
+                    continue
+                if re.match(r"(main|util|corpus.*|common.*)\.go$", f) or any(f.startswith(k) for k in keep):
+                    continue
+                os.unlink(os.path.join(ddir, f))
             open(os.path.join(hdir, "go.mod"), "w").write(new)
             shutil.copy(os.path.join(REPO, "go.sum"), os.path.join(hdir, "go.sum"))
         cmd = ["go", "build", "-tags", "verif", "-o", out]
